@@ -16,6 +16,7 @@ LEVEL_NOTE = 'Trusted: the filter model; a stitched result is compared as a mapp
 RULE = ('random datetime-indexed Series/DataFrames (daily and intraday grids with gaps, empty), lb/ub before/on/between/after index points (>=50% ON an index point), all four bracket pairs, '
         'dates and times of day (incl. windows wrapping past midnight); stitching of 2-5 series at increasing/decreasing bound lists for every n in 1..k; df_unslice round trip; '
         'non-trivial = >=1 bound coinciding with an index point; distinct = canonical hash')
+RULE_ALSO = '; added by the coverage audit and round 8: lower-bound lists, both bound lists, one series cut by several windows, tz-aware index cut by bounds quoted in another zone, a far-away last bound'
 ASSUMPTIONS = ['the statement fixes no row order for a stitched result: it is compared as a mapping timestamp -> row and each timestamp must occur at most once',
                'df_unslice round trips use NaN-free member series (nona drops NaN rows by design)', 'indices are sorted and unique']
 T0 = datetime.datetime(2023, 6, 1)
